@@ -1,12 +1,15 @@
 """Translator: regenerates coq/Generated/*.v from the working tree of the
-repository (sys.path must lead to it).  Fail-closed: anything it does not
-understand raises, the check then reports the translator obligation broken."""
+repository (sys.path must lead to it).  Fail-closed per plugin: a generator
+that does not understand what it reads raises; its status is recorded in
+build/facts_status.json and its stale output is deleted."""
+import json
 import os
 import sys
 
 HERE = os.path.dirname(os.path.abspath(__file__))
 sys.path.insert(0, HERE)
-OUT = os.path.join(os.path.dirname(HERE), "coq", "Generated")
+ROOT = os.path.dirname(HERE)
+OUT = os.path.join(ROOT, "coq", "Generated")
 
 
 def write_if_changed(path, text):
@@ -21,9 +24,23 @@ def write_if_changed(path, text):
 
 def main():
     os.makedirs(OUT, exist_ok=True)
+    os.makedirs(os.path.join(ROOT, "build"), exist_ok=True)
     import gen_modules
-    for name, text in gen_modules.generate():
+    files, status = gen_modules.generate_all()
+    keep = set()
+    for name, text in files:
         write_if_changed(os.path.join(OUT, name), text)
+        keep.add(name)
+    for f in os.listdir(OUT):
+        if f.endswith(".v") and f not in keep:
+            os.remove(os.path.join(OUT, f))
+    with open(os.path.join(ROOT, "build", "facts_status.json"), "w") as f:
+        json.dump(status, f, indent=1)
+    bad = {k: v for k, v in status.items() if v != "ok"}
+    for k, v in bad.items():
+        print(f"facts plugin {k} FAILED:\n{v}")
+    # exit status 0: per-plugin failures are judged per property by the harness
+    print("facts:", ", ".join(f"{k}={'ok' if v == 'ok' else 'FAILED'}" for k, v in status.items()))
 
 
 if __name__ == "__main__":
